@@ -825,12 +825,23 @@ class _Progress:
                     self.consuming.add(name)
                     changed = True
 
+    @staticmethod
+    def _class_test(t):
+        """(character-class key, variable) of a test `RX.match(v)` or `v in NAME` (NAME a module-level
+        constant container), else None.  The key identifies the class: two tests with the same key
+        accept exactly the same characters."""
+        if isinstance(t, ast.Call) and isinstance(t.func, ast.Attribute) and t.func.attr == "match" and isinstance(t.func.value, ast.Name) and len(t.args) == 1 and isinstance(t.args[0], ast.Name):
+            return t.func.value.id, t.args[0].id
+        if isinstance(t, ast.Compare) and len(t.ops) == 1 and isinstance(t.ops[0], ast.In) and isinstance(t.left, ast.Name) and isinstance(t.comparators[0], ast.Name):
+            return "in:" + t.comparators[0].id, t.left.id
+        return None
+
     def _guard_pred(self, name, rx):
         peeked = self.peeked[name]
 
         def guard(a, b, lab):
-            t = a.ast
-            return a.kind == "test" and lab is True and isinstance(t, ast.Call) and P.un(t.func) == f"{rx}.match" and len(t.args) == 1 and P.un(t.args[0]) in peeked
+            ct = self._class_test(a.ast) if a.kind == "test" else None
+            return ct is not None and lab is True and ct[0] == rx and ct[1] in peeked
         return guard
 
     def _cond_consumers(self):
@@ -844,17 +855,17 @@ class _Progress:
             if len(loops) != 1:
                 continue
             w = loops[0]
-            t = w.test
-            if not (isinstance(t, ast.Call) and isinstance(t.func, ast.Attribute) and t.func.attr == "match" and isinstance(t.func.value, ast.Name) and len(t.args) == 1 and isinstance(t.args[0], ast.Name)):
+            ct = self._class_test(w.test)
+            if ct is None:
                 continue
-            var = t.args[0].id
+            key, var = ct
             before = fn.body[: fn.body.index(w)]
             init = [s for s in before if isinstance(s, ast.Assign) and P.un(s.targets[0]) == var and _reader_op(s.value, al) == "peek"]
             # the body (straight-line top-level statements) consumes and re-reads the loop variable
             consumes = [s for s in w.body if isinstance(s, (ast.Assign, ast.Expr)) and any(_reader_op(c, al) in CONSUME for c in P.calls(s))]
             step = [s for s in w.body if isinstance(s, ast.Assign) and P.un(s.targets[0]) == var and _reader_op(s.value, al) in READS]
             if init and step and consumes and all(isinstance(s, (ast.Assign, ast.Expr)) for s in w.body):
-                out[name] = t.func.value.id
+                out[name] = key
         changed = True
         while changed:
             changed = False
@@ -1373,6 +1384,15 @@ SELFTEST = [
     {"name": "twin: namespaced map prefix guard written positively", "file": RD, "expect": None,
      "old": "    if char != \"{\":\n        raise ctx.syntax_error(\n            f\"Expected '{{' after namespaced map prefix '#:{map_ns}'; got '{char}'\"\n        )\n\n    return _read_map(ctx, namespace=map_ns)\n",
      "new": "    if char == \"{\":\n        return _read_map(ctx, namespace=map_ns)\n    raise ctx.syntax_error(\n        f\"Expected '{{' after namespaced map prefix '#:{map_ns}'; got '{char}'\"\n    )\n"},
+    {"name": "twin: whitespace class as a constant set, used by the guard and the loop alike", "file": RD, "expect": None,
+     "edits": [
+         {"file": RD, "old": "def _consume_whitespace(ctx: ReaderContext) -> str:\n    reader = ctx.reader\n    char = reader.peek()\n    while whitespace_chars.match(char):\n",
+          "new": "_WS = frozenset(\" \\t\\n\\r\\f\\v,\")\n\n\ndef _consume_whitespace(ctx: ReaderContext) -> str:\n    reader = ctx.reader\n    char = reader.peek()\n    while char in _WS:\n"},
+         {"file": RD, "old": "    if whitespace_chars.match(char):\n        return _read_next_consuming_whitespace(ctx)\n", "new": "    if char in _WS:\n        return _read_next_consuming_whitespace(ctx)\n"},
+     ]},
+    {"name": "whitespace guard and whitespace loop use different classes", "file": RD, "expect": "C16.R5",
+     "old": "def _consume_whitespace(ctx: ReaderContext) -> str:\n    reader = ctx.reader\n    char = reader.peek()\n    while whitespace_chars.match(char):\n",
+     "new": "_WS = frozenset(\" \\t\\n\\r\\f\\v,\")\n\n\ndef _consume_whitespace(ctx: ReaderContext) -> str:\n    reader = ctx.reader\n    char = reader.peek()\n    while char in _WS:\n"},
     {"name": "line comment forgets end of input", "file": RD, "expect": "C16.R5",
      "old": "        if char == \"\":\n            return ctx.eof\n        reader.advance()\n", "new": "        reader.advance()\n"},
     {"name": "whitespace skipped without advancing", "file": RD, "expect": "C16.R5", "first": True,
